@@ -118,12 +118,14 @@ def groupOf? : Term → Option Group
              gr := (← grCfgOf? gr), llgr := (← llgrCfgOf? llgr), nets := (← netsOf? nets) }
   | _ => none
 
-def polOf? (t : Term) : Option (Option Bool) :=
-  asOpt? (fun | .atom "accept" => some true | .atom "reject" => some false | _ => none) t
-def polT : Option Bool → Term
+def polOf? (t : Term) : Option (Option (Bool × List String)) :=
+  asOpt? (fun
+    | .list [.atom "accept", names] => (asListOf? asSym? names).map fun n => (true, n)
+    | .list [.atom "reject", names] => (asListOf? asSym? names).map fun n => (false, n)
+    | _ => none) t
+def polT : Option (Bool × List String) → Term
   | none => sym "none"
-  | some true => list [sym "some", sym "accept"]
-  | some false => list [sym "some", sym "reject"]
+  | some (b, names) => list [sym "some", list [sym (if b then "accept" else "reject"), ofList sym names]]
 
 def peerOf? : Term → Option PeerCase
   | .list [.atom "peer", ip, exp, lasn, hold, passive, rs, rrc, cluster, down, fams, sm, pl, gr, llgr, pol, group] => do
@@ -151,6 +153,10 @@ def opOf? : Term → Option Op
   | .list [.atom "disc", s] => do
       let n ← asNat? s
       if n < 18446744073709551616 then some (.disc n) else none
+  | .list [.atom "discx", s, a, h] => do
+      let n ← asNat? s
+      let h ← natLe? U16 h
+      if n < 18446744073709551616 ∧ h ≠ 1 ∧ h ≠ 2 then some (.discx n (← natLe? U32 a) h) else none
   | .list [.atom "enable", a] => (ipOf? a).map .enable
   | .list [.atom "disable", a] => (ipOf? a).map .disable
   | .list [.atom "delete", a] => (ipOf? a).map .delete
@@ -191,9 +197,9 @@ def wfCase : Case → Bool
 
 /-! ### observations -/
 
-def famStateT (s : FamState) : Term := list [nat s.fam, bool s.rx, bool s.tx]
+def famStateT (s : FamState) : Term := list [nat s.fam, bool s.rx, bool s.tx, bool s.enh]
 def famStateOf? : Term → Option FamState
-  | .list [f, rx, tx] => do pure { fam := (← asNat? f), rx := (← asBool? rx), tx := (← asBool? tx) }
+  | .list [f, rx, tx, e] => do pure { fam := (← asNat? f), rx := (← asBool? rx), tx := (← asBool? tx), enh := (← asBool? e) }
   | _ => none
 
 def codecT (c : Codec) : Term :=
@@ -265,7 +271,9 @@ def resT : Res → Term
   | .accept sid info cfg role => tag "accept" [nat sid, sessT info, cfgT cfg role]
   | .acceptAmb sid gs ok => tag "accept-amb" [nat sid, ofList sym gs, bool ok]
   | .reject n => tag "reject" [nat n]
-  | .discOpen a h r caps => tag "disc" [tag "open" [nat a, nat h, nat r, capsT caps]]
+  | .discOpen a h r caps none => tag "disc" [tag "open" [nat a, nat h, nat r, capsT caps]]
+  | .discOpen a h r caps (some false) => tag "disc" [tag "open" [nat a, nat h, nat r, capsT caps], tag "notif" [nat 2, nat 2]]
+  | .discOpen a h r caps (some true) => tag "disc" [tag "open" [nat a, nat h, nat r, capsT caps], sym "keepalive", sym "end-of-rib"]
   | .discNotif c s => tag "disc" [tag "notif" [nat c, nat s]]
   | .noSession => sym "no-session"
   | .api true => tag "api" [sym "ok"]
@@ -279,7 +287,11 @@ def resOf? : Term → Option Res
       pure (.acceptAmb (← asNat? sid) (← asListOf? asSym? gs) (← asBool? ok))
   | .list [.atom "reject", n] => (asNat? n).map .reject
   | .list [.atom "disc", .list [.atom "open", a, h, r, caps]] => do
-      pure (.discOpen (← asNat? a) (← asNat? h) (← asNat? r) (← obsCapsOf? caps))
+      pure (.discOpen (← asNat? a) (← asNat? h) (← asNat? r) (← obsCapsOf? caps) none)
+  | .list [.atom "disc", .list [.atom "open", a, h, r, caps], .list [.atom "notif", .atom "2", .atom "2"]] => do
+      pure (.discOpen (← asNat? a) (← asNat? h) (← asNat? r) (← obsCapsOf? caps) (some false))
+  | .list [.atom "disc", .list [.atom "open", a, h, r, caps], .atom "keepalive", .atom "end-of-rib"] => do
+      pure (.discOpen (← asNat? a) (← asNat? h) (← asNat? r) (← obsCapsOf? caps) (some true))
   | .list [.atom "disc", .list [.atom "notif", c, s]] => do pure (.discNotif (← asNat? c) (← asNat? s))
   | .atom "no-session" => some .noSession
   | .list [.atom "api", .atom "ok"] => some (.api true)
